@@ -75,6 +75,12 @@ def sortedInts (l : List Int) (r : Bool) : List Int :=
   let s := l.mergeSort (fun a b => decide (a ≤ b))
   if r then s.reverse else s
 
+/-- `d[k]` for a dictionary of settings keyed by effect; KeyError when absent -/
+def dictGet (d : List (Nat × Setting)) (k : Nat) : Except Exc Setting :=
+  match d.find? (fun kv => kv.1 == k) with
+  | some kv => .ok kv.2
+  | none => .error .key
+
 /-- `k not in d or d[k] != v` for a dictionary of settings keyed by effect (`!=` compares the setting texts) -/
 def dictNe (d : List (Nat × Setting)) (k : Nat) (v : Setting) : Bool :=
   match (d.find? (fun kv => kv.1 == k)) with
